@@ -230,6 +230,15 @@ def feature_key(prop, it, ev):
         return "rule=" + it["rule"]
     if it["family"] == "pt":
         return "%s:placement=%s" % (it["macro"], it["id"][2:])
+    if it["family"] == "gen":      # the shapes of the handlers' argument and response types (type parameters all called T)
+        import re as _re
+        norm = lambda t: _re.sub(r"\bT\d+\b", "T", t)  # noqa: E731
+        parts = []
+        for m in it["members"]:
+            if m.get("kind"):
+                tys = ",".join(norm(q["ty"]) for q in m["params"])
+                parts.append("%s(%s)%s" % (m["kind"], tys, ("->" + norm(m["ret"])) if m["kind"] == "query" else ""))
+        return "gen:" + ";".join(parts)
     return it["family"] + ":" + it["id"]
 
 
